@@ -114,7 +114,11 @@ func (h *StoreHandle) fullKey(ex *Exec, k Val) []*Term {
 	if sv, ok := k.(SliceV); ok && sv.Nil {
 		kb = nil
 	}
-	if len(kb) == 0 {
+	if sv, ok := k.(SliceV); ok && sv.Nil && len(h.prefix) > 0 {
+		ex.goPanic("nil key on Store.key")
+	}
+	// an empty non-nil key is legal under a prefix store (the full key is the prefix itself)
+	if len(kb) == 0 && len(h.prefix) == 0 {
 		ex.goPanic("key is nil or empty")
 	}
 	out := make([]*Term, 0, len(h.prefix)+len(kb))
@@ -489,6 +493,13 @@ func init() {
 		return &CtxV{ms: ex.env.freshMS(), height: h, time: ex.tf.BVMul(secs, ex.tf.BVu(1000000000, 64)), chainID: chain,
 			gas: &GasMeterObj{infinite: true, limit: ex.tf.BVu(0, 64), consumed: ex.tf.BVu(0, 64)}, events: &EventMgrObj{}}
 	})
+	reg(rtPkg+"Snapshot", func(ex *Exec, a []Val) Val {
+		return PtrV{C: ex.newCell(&SnapObj{ms: ex.ctxArg(a[0]).ms.clone()})}
+	})
+	reg(rtPkg+"SameState", func(ex *Exec, a []Val) Val {
+		snap := ex.load(a[1].(PtrV)).(*SnapObj)
+		return ex.sameState(ex.ctxArg(a[0]).ms, snap.ms)
+	})
 	reg(rtPkg+"RemountContext", func(ex *Exec, a []Val) Val { return a[0] })
 	reg("github.com/cometbft/cometbft/libs/log.NewNopLogger", func(ex *Exec, a []Val) Val { return nativeIface(&LoggerObj{}) })
 	reg(rtPkg+"NewContextAt", func(ex *Exec, a []Val) Val {
@@ -780,4 +791,81 @@ var _ = big.NewInt
 func (ex *Exec) blobLen(b BlobV) Val {
 	// length of marshalled bytes is not modelled precisely: treated as non-empty
 	return ex.tf.BVu(1, 64)
+}
+
+// SnapObj: a frozen copy of a multistore (verifrt.Snapshot).
+type SnapObj struct{ ms *MultiStore }
+
+// sameState: both multistores hold the same key set with equal values. Concrete keys are matched
+// directly; a symbolic key forks on equality with each candidate.
+func (ex *Exec) sameState(a, b *MultiStore) *Term {
+	names := map[string]bool{}
+	for n := range a.stores {
+		names[n] = true
+	}
+	for n := range b.stores {
+		names[n] = true
+	}
+	sorted := make([]string, 0, len(names))
+	for n := range names {
+		sorted = append(sorted, n)
+	}
+	sort.Strings(sorted)
+	cs := []*Term{}
+	for _, n := range sorted {
+		ea, eb := a.get(n).entries, b.get(n).entries
+		if len(ea) != len(eb) {
+			return ex.tf.F
+		}
+		used := make([]bool, len(eb))
+		for _, x := range ea {
+			found := -1
+			xs, xc := concreteBytes(x.key)
+			for j, y := range eb {
+				if used[j] || len(y.key) != len(x.key) {
+					continue
+				}
+				ys, yc := concreteBytes(y.key)
+				if xc && yc {
+					if xs == ys {
+						found = j
+						break
+					}
+					continue
+				}
+				if ex.Branch(ex.bytesEq(x.key, y.key)) {
+					found = j
+					break
+				}
+			}
+			if found < 0 {
+				return ex.tf.F
+			}
+			used[found] = true
+			cs = append(cs, ex.storeValEq(x.val, eb[found].val))
+		}
+	}
+	return ex.tf.And(cs...)
+}
+
+func (ex *Exec) storeValEq(x, y Val) *Term {
+	switch p := x.(type) {
+	case BytesVal:
+		q, ok := y.(BytesVal)
+		if !ok {
+			ex.unmodelled("compare raw bytes with a codec blob in the store")
+		}
+		if len(p.B) != len(q.B) {
+			return ex.tf.F
+		}
+		return ex.bytesEq(p.B, q.B)
+	case BlobV:
+		q, ok := y.(BlobV)
+		if !ok {
+			ex.unmodelled("compare raw bytes with a codec blob in the store")
+		}
+		return ex.valEq(p.V, q.V)
+	}
+	ex.unmodelled("store value kind")
+	return nil
 }
